@@ -81,7 +81,8 @@ def r1_worklists(ctx):
         if ctx.floor('first-hop recording in dijkstra', len(rec), 1):
             s = rec[0]
             atoms = [a for _, a in f.guard_atoms(s.b)]
-            unvisited = any(a[0] == 'bool' and a[1][0] == 'call' and a[1][1].endswith('::contains') and a[2] is False for a in atoms)
+            unvisited = any(a[0] == 'bool' and a[1][0] == 'call' and a[1][1].endswith('::contains') and a[2] is False for a in atoms) or \
+                any(a[0] == 'bool' and a[2] is False and a[1][0] == 'index' for a in atoms)     # a visited bitmap: `!visited[idx]`
             # alternative discipline: nodes are marked visited when they are enqueued
             enq = [i for i, _ in ins]
             mark_at_enqueue = bool(vis_push) and bool(enq) and all(set(f.loops_containing(v.b)) >= set(f.loops_containing(enq[0].b)) and len(f.loops_containing(v.b)) >= 2 for v in vis_push)
@@ -155,11 +156,34 @@ def r2_edge_provenance(ctx):
             atoms = [a for _, a in f.guard_atoms(b)]
             endpoint_guard = any(a[0] in ('bool', 'cmp') and any(x[0] == 'call' and x[1].endswith('Gate::kind') for x in walk(a[1] if a[0] == 'bool' else a[2])) for a in atoms) or \
                 any(a[0] == 'cmp' and a[1] == 'eq' and any(x[0] == 'call' and x[1].endswith('Gate::kind') for x in walk(a[2])) for a in atoms)
+            if not endpoint_guard:
+                # the gates are pre-filtered: `.filter(|g| g.kind() == GateKind::Endpoint)` feeds the loop that builds the edge
+                st_ = f.expr_operand(r['ops'][r['fields'].index('start')], b, i)
+                for x in walk(st_):
+                    if x[0] == 'call' and x[1].endswith('Iterator::filter') and len(x[2]) == 2:
+                        cl = peel(x[2][1])
+                        g2 = P.fns.get(cl[1][len('closure:'):]) if cl[0] == 'agg' and str(cl[1]).startswith('closure:') else None
+                        for _, t2 in (ret_trees(g2) if g2 else []):
+                            a2 = atom_of(t2, ('eq', 1))
+                            if a2 and a2[0] == 'cmp' and a2[1] == 'eq' and any(y[0] == 'call' and y[1].endswith('Gate::kind') for y in walk(a2[2]) ) and 'Endpoint' in show_c(a2[3]):
+                                endpoint_guard = True
+                            if a2 and a2[0] == 'cmp' and a2[1] == 'eq' and any(y[0] == 'call' and y[1].endswith('Gate::kind') for y in walk(a2[3])) and 'Endpoint' in show_c(a2[2]):
+                                endpoint_guard = True
             ctx.check(endpoint_guard, 'edge-only-for-endpoints:%s' % key.split('::')[-1], 'an edge is created only for gates of kind Endpoint', f.where(b), [show_atom(a) for a in atoms][:3])
             start = peel(fields['start'])
             s_ok = any(x[0] == 'call' and x[1].endswith('::next') for x in walk(start)) and not any(x[0] == 'field' and x[2] == 'endpoint' for x in walk(start))
             end = fields['end']
             e_ok = any(x[0] == 'field' and x[2] == 'endpoint' for x in walk(end)) and any(x[0] in ('phi', 'var') for x in walk(end))
+            folds = [x for x in walk(end) if x[0] == 'call' and x[1].endswith('Iterator::fold') and len(x[2]) == 3 and any(y[0] == 'call' and y[1].endswith('Gate::path_iter') for y in walk(x[2][0]))]
+            fold_end = False
+            for x in folds:
+                cl = peel(x[2][2])
+                g2 = P.fns.get(cl[1][len('closure:'):]) if cl[0] == 'agg' and str(cl[1]).startswith('closure:') else None
+                rts = [peel(t2) for _, t2 in ret_trees(g2)] if g2 else []
+                # fold(start gate, |_, con| con.endpoint): the last connection's endpoint, or the gate itself for an empty chain
+                if rts and all(t2[0] == 'field' and t2[2] == 'endpoint' and any(y[0] == 'arg' and y[1] == 3 for y in walk(t2)) for t2 in rts):
+                    fold_end = True
+            e_ok = e_ok or fold_end
             dst = fields['dst']
             d_ok = any(x[0] == 'call' and x[1].endswith('::position') for x in walk(dst))
             ctx.check(s_ok and e_ok and d_ok, 'edge-fields:%s' % key.split('::')[-1],
@@ -168,7 +192,8 @@ def r2_edge_provenance(ctx):
             # dst is looked up by the owner of `end`
             owner = [s for s in f.calls() if s.name.endswith('Gate::owner') and f.dominates(s.b, b)]
             ctx.check(any(any(x[0] == 'field' and x[2] == 'endpoint' for x in walk(f.expr_operand(s.args[0], s.b, 'T'))) or
-                          any(x[0] in ('phi', 'var') and x[-1] == 'end' for x in walk(f.expr_operand(s.args[0], s.b, 'T'))) for s in owner), 'dst-from-end-owner:%s' % key.split('::')[-1],
+                          any(x[0] in ('phi', 'var') and x[-1] == 'end' for x in walk(f.expr_operand(s.args[0], s.b, 'T'))) or
+                          (fold_end and any(x[0] == 'call' and x[1].endswith('Iterator::fold') for x in walk(f.expr_operand(s.args[0], s.b, 'T')))) for s in owner), 'dst-from-end-owner:%s' % key.split('::')[-1],
                       'the destination node is the owner of the end gate', f.where(b))
         # the walk covers the whole chain: the loop that assigns `end = con.endpoint` iterates the path iterator itself
         walks = []
@@ -179,7 +204,14 @@ def r2_edge_provenance(ctx):
                     nx = [x for x in walk(t) if x[0] == 'call' and x[1].endswith('::next')]
                     if nx:
                         walks.append((b, nx[0]))
-        if ctx.floor('chain walk in %s' % short(key), len(walks), 1):
+        fold_sites = [s for s in f.calls() if (s.callee or '') == 'std::iter::Iterator::fold' and any(y[0] == 'call' and y[1].endswith('Gate::path_iter') for y in walk(f.expr_operand(s.args[0], s.b, 'T')))]
+        if not walks and fold_sites:
+            for s in fold_sites:
+                ty = s.argtys[0] if s.argtys else ''
+                bounded = any(a in ty for a in ('Take<', 'TakeWhile<', 'StepBy<', 'Skip<'))
+                ctx.check(not bounded, 'walk-whole-chain:%s' % key.split('::')[-1],
+                          'the end gate is found by walking the whole gate chain (fold over the unbounded path iterator)', s.where(), ty)
+        elif ctx.floor('chain walk in %s' % short(key), len(walks), 1):
             for b, nx in walks:
                 site = [s for s in f.calls() if s.b == nx[3]]
                 ty = site[0].argtys[0] if site and site[0].argtys else ''
